@@ -805,6 +805,11 @@ class Engine:
         if kind in ('Transmute', 'PtrToPtr', 'Unsize', 'PointerCoercion', 'PointerExposeProvenance', 'MutToConstPointer',
                     'ReifyFnPointer', 'ClosureFnPointer', 'UnsafeFnPointer', 'ArrayToPointer', 'Subtype'):
             if kind == 'Transmute' and ty == 'char' and srcty == 'u32': return v
+            if kind == 'Transmute' and ty.replace(' ', '') == '(usize,usize)' and type(v) is Ref:
+                # fat pointer (&dyn Trait) -> (data address, vtable address): the vtable stands for the runtime type
+                import zlib
+                rt = self.runtime_type(v) or '?'
+                return Adt('tuple', None, [Cell(id(v.cell) & 0xffffffffffff), Cell(zlib.crc32(rt.encode()))])
             if kind == 'Transmute' and ty in INTW and srcty in ('f32', 'f64'): raise Unsupported('float transmute')
             return v
         if kind in ('FloatToInt', 'IntToFloat', 'FloatToFloat'): raise Unsupported('float cast')
@@ -961,6 +966,13 @@ class Engine:
             for nm, f in self.fns.items():
                 if nm.endswith(suffix) and nm.startswith(m.group(1)) and f.kind == 'const':
                     return self.exec_fn(f, [])
+        # promoted / nested const of an inherent method, printed with the type path:  a::b::Type::method::promoted[i]
+        m = re.match(r'(.*)::(\w+)::(\w+)::((?:promoted\[\d+\]|\{constant#\d+\}).*)$', c)
+        if m:
+            f = self.impls.get((m.group(2), None, m.group(3)))
+            if f is not None:
+                nm = f.name + '::' + m.group(4)
+                if nm in self.fns: return self.exec_fn(self.fns[nm], [])
         # generic path: strip turbofish
         c2 = strip_generics(c)
         if c2 != c and c2 in self.fns: return self.exec_fn(self.fns[c2], [])
